@@ -257,6 +257,10 @@ def concrete_playback(harness, where, slot, env, out):
         return {"confirmed": False, "error": "no playback test emitted", "output": out[-3000:]}
     test = m.group(1)
     tname = re.search(r"fn (kani_concrete_playback_\w+)", test).group(1)
+    # the test is appended at the top level of the harness file: reference the harness by its full crate path
+    # (harnesses usually live inside `mod verif_kani_x { .. }`)
+    test = re.sub(r"kani::concrete_playback_run\(\s*concrete_vals\s*,\s*[\w:]+\s*\)",
+                  "kani::concrete_playback_run(concrete_vals, crate::%s)" % harness, test)
     vals = re.findall(r"vec!\[([0-9, ]*)\]", test)
     hf = _find_harness_file(harness, roots)
     if hf is None:
